@@ -244,12 +244,14 @@ class BarrierScenario(Scenario):
                 await asyncio.sleep(self.params['slow_index2'])
             return {'all': name}
         only2 = bool(self.params.get('only_second_indexed'))   # the handled kind has no index of its own
+        only1 = bool(self.params.get('only_first_indexed'))    # (the mirror image: whichever kind the orchestrator visits first)
         if not only2:
             kopf.index('kopfexamples', id='idx1', registry=reg)(idx1)
-        kopf.index('kopfwidgets', id='idx2', registry=reg)(idx2)
+        if not only1:
+            kopf.index('kopfwidgets', id='idx2', registry=reg)(idx2)
 
         def seen(kw: dict) -> dict:
-            return {'idx1': sorted(kw['idx1'].get('all', [])) if not only2 else None, 'idx2': sorted(kw['idx2'].get('all', []))}
+            return {'idx1': sorted(kw['idx1'].get('all', [])) if not only2 else None, 'idx2': sorted(kw['idx2'].get('all', [])) if not only1 else None}
 
         async def c1(**kw: Any) -> None:
             env.log('handled', id='c1', name=kw['name'], **seen(kw))
@@ -260,10 +262,11 @@ class BarrierScenario(Scenario):
         async def dm(stopped: Any, **kw: Any) -> None:
             env.log('handled', id='dm', name=kw['name'], **seen(kw))
             await stopped.wait()
-        kopf.on.create('kopfexamples', id='c1', registry=reg)(c1)
-        kopf.on.resume('kopfexamples', id='r1', registry=reg)(c1)
-        kopf.timer('kopfexamples', id='tm', interval=3.0, registry=reg)(tm)
-        kopf.daemon('kopfexamples', id='dm', registry=reg)(dm)
+        handled = 'kopfwidgets' if self.params.get('handled_second') else 'kopfexamples'   # which kind carries the handlers
+        kopf.on.create(handled, id='c1', registry=reg)(c1)
+        kopf.on.resume(handled, id='r1', registry=reg)(c1)
+        kopf.timer(handled, id='tm', interval=3.0, registry=reg)(tm)
+        kopf.daemon(handled, id='dm', registry=reg)(dm)
         if self.params.get('handlers_on_second'):
             kopf.on.create('kopfwidgets', id='c2', registry=reg)(c1)
         self.op = Operator(env, 'A', reg, make_settings())
@@ -286,7 +289,7 @@ class BarrierScenario(Scenario):
         for t, k, p in env.obs:
             if k == 'handled':
                 miss1 = [n for n in want1 if n not in p['idx1']] if p['idx1'] is not None else []
-                miss2 = [n for n in want2 if n not in p['idx2']]
+                miss2 = [n for n in want2 if n not in p['idx2']] if p['idx2'] is not None else []
                 if miss1 or miss2:
                     out.append(self.viol(env, 'handled-before-indexed', f"t={t}: {p['id']} ran for {p['name']} while the indices lack {miss1 + miss2} "
                                                                         f"(objects that existed when the operator started)", clause='barrier',
@@ -307,6 +310,8 @@ def run(tier: str, seed: int) -> CheckResult:
     barrier = [BarrierScenario(n1=n1, n2=n2, slow_index=slow, handlers_on_second=h2)
                for n1, n2, slow, h2 in [(1, 1, 0, False), (2, 1, 0, False), (1, 2, 1.0, False), (2, 2, 0, True), (0, 2, 0, False), (2, 0, 0, False)]]
     barrier += [BarrierScenario(n1=2, n2=2, slow_index=0, handlers_on_second=h2, same_names=True) for h2 in (False, True)]
+    barrier += [BarrierScenario(n1=n1, n2=n2, slow_index=slow1, handlers_on_second=False, only_first_indexed=True, handled_second=True)
+                for n1, n2, slow1 in [(1, 1, 0), (2, 2, 0), (2, 1, 1.0)]]
     barrier += [BarrierScenario(n1=n1, n2=n2, slow_index=0, slow_index2=slow2, handlers_on_second=False, only_second_indexed=True)
                 for n1, n2, slow2 in [(1, 1, 0), (2, 2, 0), (1, 2, 1.0)]]
     if tier == 'quick':
